@@ -27,8 +27,8 @@ EXPLANATION = (
     "True and whose resolved effect is `not solved => reaction := row[input column]`; later writers only touch rows selected as "
     "solved; the in-place water insertion of the rule-based stage is followed by such a revert before the MCS stage reads the row; "
     "(V2) MCSSearch.find seeds a non-empty issue on every unsolved row, the final validator fills empty issues of unsolved rows with a "
-    "non-empty constant, the confidence filter writes a formatted issue on demotion; (V3) the three validators carry pairwise "
-    "distinct method constants out of {input-balanced, rule-based, mcs-based} and nothing else writes the method column; (V4) "
+    "non-empty constant, the confidence filter writes a formatted issue on demotion; (V3) the validators carry "
+    "method constants out of {input-balanced, rule-based, mcs-based} and nothing else writes the method column; (V4) "
     "impute_reaction cannot return normally when the carbon label is 'reactants', the rule-based stage forwards only carbon-balanced "
     "rows and promotion needs the label 'balanced'; (V5) the confidence filter keeps a row exactly when confidence >= threshold, so the "
     "default threshold 0 demotes nothing (shared with C13-H1); (V6) every caller-settable setting read by the pipeline is part of the "
@@ -61,7 +61,7 @@ def rule_v1(ctx, pl: Pipeline, writers) -> None:
                     "the revert of unsolved rows stores into the key %s, which equals the reaction column only under its default name: with a caller-chosen reaction column the edited text stays in the row that is reported as declined" % sorted(map(repr, w.store.keys)),
                 )
                 continue
-            flag = w.stage.kw("override_unsolved")
+            flag = w.stage.kw_effective(ctx, "override_unsolved")
             armed = flag == frozenset({Val("const", True)})
             reverts.append((w, armed))
             ctx.instance("C03-V1", "stage %d %s: revert store, override_unsolved=%s" % (w.stage.index, w.stage.label, sorted(map(repr, flag))), w.where, armed=armed)
@@ -138,10 +138,10 @@ def rule_v2(ctx, pl: Pipeline) -> None:
         f = ctx.prog.func("synrbl.mcs_search.MCSSearch.find")
         ctx.finding("C03-V2", "mcs_search.MCSSearch.find:issue-seed", f.loc(), "no store of a non-empty constant into the issue column that covers exactly the rows with `not solved`")
     # (b) final validator fills empty issues
-    finals = [st for st in pl.stages if st.callee.qualname == stageclass.VALIDATOR_CHECK and st.kw("override_unsolved") == frozenset({Val("const", True)})]
+    finals = [st for st in pl.stages if st.callee.qualname == stageclass.VALIDATOR_CHECK and st.kw_effective(ctx, "override_unsolved") == frozenset({Val("const", True)})]
     ctx.require(finals, "no validator call with override_unsolved=True")
     last = finals[-1]
-    msg = last.kw("override_issue_msg")
+    msg = last.kw_effective(ctx, "override_issue_msg")
     msg_ok = len(msg) == 1 and next(iter(msg)).kind == "const" and isinstance(next(iter(msg)).value, str) and next(iter(msg)).value.strip() != ""
     fill = None
     for s in last.stores:
@@ -176,7 +176,7 @@ def rule_v2(ctx, pl: Pipeline) -> None:
 
 
 def rule_v3(ctx, pl: Pipeline) -> None:
-    ctx.rule("C03-V3", "validators carry pairwise distinct method constants from {input-balanced, rule-based, mcs-based}; the method column has no other writer", 4)
+    ctx.rule("C03-V3", "every validator's method constant is one of {input-balanced, rule-based, mcs-based}; the method column has no other writer", 4)
     seen = {}
     n_validators = 0
     for attr, inst in sorted(ctx.balancer.attr_inst.items()):
@@ -185,12 +185,10 @@ def rule_v3(ctx, pl: Pipeline) -> None:
         n_validators += 1
         m = inst.get("method")
         val = next(iter(m)).value if len(m) == 1 and next(iter(m)).kind == "const" else None
-        ok = val in METHODS and val not in seen
-        ctx.instance("C03-V3", "Balancer.%s.method = %r" % (attr, val), "synrbl/balancing.py", ok=ok)
+        ok = val in METHODS
+        ctx.instance("C03-V3", "Balancer.%s.method = %r%s" % (attr, val, " (also the method of %s)" % seen[val] if val in seen else ""), "synrbl/balancing.py", ok=ok)
         if val not in METHODS:
             ctx.finding("C03-V3", "Balancer.%s:method" % attr, "synrbl/balancing.py:1", "validator method %r is not one of %s" % (val, sorted(METHODS)))
-        elif val in seen:
-            ctx.finding("C03-V3", "Balancer.%s:method" % attr, "synrbl/balancing.py:1", "method literal %r is shared with %s" % (val, seen[val]))
         seen.setdefault(val, attr)
     ctx.require(n_validators >= 3, "fewer than three validators are bound in Balancer.__init__")
     sb = pl.solved_by_col.text
